@@ -467,6 +467,28 @@ def body(prop, args, seed, t0):
             tie_broken("translated_check_t16", bad16, "translator disagreement (distances)")
     # --- T16 end
 
+    # --- T17: the translated `matrix` properties of the gate classes and the `GateOperation` members (harness/translate_t17.py ->
+    # OQ/Generated/TranslatedGatesMatrix.lean, tied to the model's `gateMatrix` by Props/C07_TranslatedMatrix.lean) are run in the driver
+    # (tag "TRT17") with the sympy operations instantiated by exact matrix operations over Q(zeta8) and by free matrix terms, and
+    # compared with `gate.matrix` / `GateOperation.lifted_matrix` / `bind` / … of the real classes (harness/translated_check_t17.py)
+    if prop in ("C06", "C07") and driver.available() and (build_ok or common.lake_build(["oqdriver"])[0]):
+        try:
+            from harness import translated_check_t17 as _t17
+            n17, bad17, untr17, listed17 = _t17.run(seed)
+        except Timeout:
+            raise
+        except Exception as e:  # noqa: BLE001  (same policy as for the self-checks above)
+            if not broken:
+                tie_broken("self-check crashed (T17)", [f"{type(e).__name__}: {str(e)[:300]}"], "translator self-check crashed")
+            n17, bad17, untr17, listed17 = 0, [], [f"self-check could not run: {type(e).__name__}: {str(e)[:120]}"], []
+        tie["translated_t17_matrix_vs_python_classes"] = n17
+        tie["translated_t17_not_compared"] = len(getattr(_t17, "DROPPED", [])) if "_t17" in dir() else 0
+        tie["translated_functions"] = list(tie.get("translated_functions", [])) + listed17
+        tie["untranslatable_now"] = list(tie.get("untranslatable_now", [])) + untr17
+        if bad17:
+            tie_broken("translated_check_t17", bad17, "translator disagreement (gate matrices / GateOperation)")
+    # --- T17 end
+
     # --- T7: the translated CLASSES PauliTerm / PauliSum (harness/translate_t7.py -> OQ/Generated/TranslatedC03.lean, tied to the model of
     # C03 by Props/C03_TranslatedPauli.lean) are run at Cyc8 through the generated glue OQ/Generated/TranslatedDriverT7.lean (tag "TRT7")
     # and compared with the real methods on real objects (harness/translated_check_t7.py); the prelude is compared with CPython for C03
